@@ -67,7 +67,7 @@ Definition init_vstate (p : xproto) : vstate :=
        [mkCl p [] 0%nat]
        [g_globals; g_coroutine; g_table; g_string; g_math; g_strmt]
        [] [] (Some 5%nat) 0%nat
-       [mkTh (mkReg [] 0) [] [] None false false true] 0%nat.
+       [mkTh (mkReg [] 0) [] [] None false false true 0] 0%nat.
 
 Inductive vfin := VFinOk (vs : list value) (s : vstate) | VFinErr (v : value) (s : vstate)
                 | VFinFuel | VFinUnsup (c : Z).
